@@ -92,11 +92,24 @@ C05_BestMode_Failed(bestMain, firstPassFile) ==
     (IF {bestMain[j].q : j \in 1..Len(bestMain)} = {firstPassFile[j].q : j \in 1..Len(firstPassFile)}
      THEN {} ELSE {"best_mode_one_record_for_every_aligned_query"})
 
+\* best mode keeps "the best-scoring candidate": a query without a joined record (none in the main file of 'all') gets
+\* a record at least as confident as each of its first-pass / second-pass records (files _1 / _2 of 'all')
+C05_BestOfPasses_Failed(bestMain, allMain, allF1, allF2) ==
+    LET joinedIds == {allMain[j].q : j \in 1..Len(allMain)}
+        passRecs(q) == {x \in SeqToSet(allF1) \cup SeqToSet(allF2) : x.q = q}
+    IN IF \A j \in 1..Len(bestMain) :
+             bestMain[j].q \in joinedIds \/ \A x \in passRecs(bestMain[j].q) : x.conf <= bestMain[j].conf
+       THEN {} ELSE {"best_mode_record_is_the_most_confident_of_the_passes"}
+
 -----------------------------------------------------------------------------
 (* C08 over the four runs on one input: files as sequences of rows (text fields) *)
 SameRecord(a, b) == /\ a.q = b.q /\ a.r = b.r /\ a.ori = b.ori /\ a.conf = b.conf /\ a.rs = b.rs /\ a.re = b.re
                     /\ a.pairs = b.pairs /\ a.rest = b.rest /\ a.qs = b.qs /\ a.qe = b.qe /\ a.hit = b.hit
 SameFile(f, g) == Len(f) = Len(g) /\ \A j \in 1..Len(f) : SameRecord(f[j], g[j])
+\* 'best' hands a second-pass row that outscores the first-pass row to the resolver TWICE (named deviation
+\* EmitBest_UsesBothPasses): joined with itself it comes back as the same record with AlignedRest False, or the join is
+\* refused and it keeps AlignedRest True - the comparison of the 'best' file with the model leaves that flag out
+SameFileButRest(f, g) == Len(f) = Len(g) /\ \A j \in 1..Len(f) : SameRecord([f[j] EXCEPT !.rest = ""], [g[j] EXCEPT !.rest = ""])
 PairSet(x) == {x.pairs[j] : j \in 1..Len(x.pairs)}
 ValidUnion(S, reverse) ==       \* a set of <<r, q>> pairs that is a one-to-one, collinear matching
     \A a, b \in S : a # b => /\ a[1] # b[1] /\ a[2] # b[2]
